@@ -51,6 +51,17 @@ def run():
                 chk.report(key, "program %d on build '%s' differs from the machine (%s)" % (pid_, name, bad[pid_]),
                            "prog_%s_%d.json" % (name, pid_), {"key": key, "build": name, "scheme": node.scm, "core": node.core,
                                                               "this_build": results.get(pid_), "default_build": outs.get("default", {}).get(pid_)})
+        # ---- numeric variant: exact-integer arithmetic of the 128-bit-emulation build judged by the C04 specification
+        import numcommon
+        for name, b in builds:
+            if name == "nosimplify":
+                continue
+            res = numcommon.run_variant(chk, sc, b, "c09num_" + name, scale=1.0 if chk.thorough else 0.6, report=False)
+            chk.cov.setdefault("numeric_variant", {})[name] = {"cases": res["cases"], "accepted": res["accepted"]}
+            total_ok += res["accepted"]
+            for key, info in res["rejected"].items():
+                chk.report("c09:num:%s:%s" % (name, key), "build '%s': exact arithmetic call rejected by NumTrace: %s" % (name, info.get("call")),
+                           "num_%s_%s.json" % (name, __import__("re").sub(r"[^A-Za-z0-9_]+", "_", key)), {"build": name, "key": key, "info": info})
         chk.cov["traces_validated_against_impl"] = total_ok
         chk.cov["builds"] = [v[0] + " " + v[1] for v in VARIANTS]
         chk.cov["evaluations"] = len(progs) * len(VARIANTS)
